@@ -70,6 +70,19 @@ def style_mappings(g):
             DFXPReader()._convert_style(tagd) == {"bold": True, "underline": True, "italics": True}, {})
 
 
+
+
+_LONG_LIVED = {}
+
+
+def shared(cls, **kw):
+    """one object per class and option set for the whole run: what a conversion returns depends on its input and the
+    options only, also when the object has converted other documents before"""
+    key = (cls, tuple(sorted(kw.items())))
+    if key not in _LONG_LIVED:
+        _LONG_LIVED[key] = cls(**kw)
+    return _LONG_LIVED[key]
+
 # ------------------------------------------------------------------------------------ bounded
 
 def flags_of_nodes(nodes):
@@ -185,8 +198,8 @@ def bounded(ctx, b):
 
         def roundtrip(W, R, lang, keep, label):
             def one():
-                doc = W().write(cs)
-                back = R().read(doc).get_captions(lang)
+                doc = shared(W).write(cs)
+                back = shared(R).read(doc).get_captions(lang)
                 got = [flags_of_nodes(c_.nodes) for c_ in back]
                 if not all(bal for _, bal in got):
                     return False, {"path": label, "unbalanced_style_nodes_after_reading": True, "doc": doc[-600:]}
@@ -219,9 +232,9 @@ def bounded(ctx, b):
 
         def cross(label, W1, R1, lang1, W2, R2, lang2, keep):
             def one():
-                mid = R1().read(W1().write(cs))
-                doc = W2().write(mid)
-                back = R2().read(doc).get_captions(lang2)
+                mid = shared(R1).read(shared(W1).write(cs))
+                doc = shared(W2).write(mid)
+                back = shared(R2).read(doc).get_captions(lang2)
                 got = [flags_of_nodes(c_.nodes) for c_ in back]
                 g2 = [strip_breaks(only(fl, keep)) for fl, _ in got]
                 e2 = [strip_breaks(only(fl, keep)) for fl, _ in orig]
@@ -232,7 +245,7 @@ def bounded(ctx, b):
         cross("sami->dfxp", SAMIWriter, SAMIReader, "en-US", DFXPWriter, DFXPReader, "en-US", ("italics",))
 
         def vtt():
-            doc = WebVTTWriter().write(cs)
+            doc = shared(WebVTTWriter).write(cs)
             got = webvtt_flags(doc)
             if not all(ok for _, ok in got):
                 return False, {"path": "webvtt", "tags_not_balanced_or_nested": doc[-400:]}
@@ -265,8 +278,8 @@ def bounded(ctx, b):
         def layouts(combo=combo):
             import warnings
             warnings.filterwarnings("ignore")
-            cs2 = DFXPReader().read(tmpl.replace("%s", "".join(spans[k] for k in combo)))
-            doc = WebVTTWriter().write(cs2)
+            cs2 = shared(DFXPReader).read(tmpl.replace("%s", "".join(spans[k] for k in combo)))
+            doc = shared(WebVTTWriter).write(cs2)
             got = webvtt_flags(doc)
             want_italic = "".join(w for k, w in (("italic_b", "two"), ("italic_a", "four"), ("bold_b", "five")) if k in combo for _ in [0])
             marked = "".join(ch for fl, _ in got for ch, f in fl if f and f[0])
